@@ -122,3 +122,11 @@ package data
 //@ globalinv [empties] len(EmptyIntSet.data) == 0 && EmptyIntMap.data != nil && len(EmptyIntMap.data) == 0 && forall k int :: !dom(EmptyIntMap.data, k)
 //@ func init()
 //@   assigns EmptyIntSet, EmptyIntMap
+
+//@ -- Filter: keeps exactly the keys of m that are in the set. TRUSTED for now (higher-order iteration through IntSet.Each).
+//@ func (m IntMap) Filter(keys IntSet) (r IntMap)
+//@   ensures  r.data != nil && fresh(r.data)
+//@   ensures  [dom] forall k int :: dom(r.data, k) == (dom(m.data, k) && Member(keys.data, k))
+//@   ensures  [val] forall k int :: dom(r.data, k) ==> r.data[k] == m.data[k]
+//@   assigns  nothing
+//@   flag trusted
